@@ -221,16 +221,20 @@ namespace vc
         return false;
     }
 
-    template <class Cont, class Twin, class Kind, std::size_t NodeConstant>
+    template <class Cont, class Twin, class Kind, std::size_t NodeConstant, class Leaf = vleaf, int Prop = 7>
     struct BoxSet : IBoxSet
     {
         using alloc = typename Cont::allocator_type;
+        int propagation() override
+        {
+            return Prop;
+        }
         std::unique_ptr<Cont> c[3];
         std::unique_ptr<Twin> t[3];
 
         void make(int s, int tag) override
         {
-            c[s].reset(Kind::template create<Cont>(alloc(*leaf_by_tag(tag))));
+            c[s].reset(Kind::template create<Cont>(alloc(leaf_ref<Leaf>(tag))));
             t[s].reset(Kind::template create<Twin>(typename Twin::allocator_type()));
         }
         void ins(int s, int k, int& v) override
@@ -360,6 +364,33 @@ namespace vc
 
     template <class T>
     using SA = fm::std_allocator<T, vleaf>;
+    template <class T>
+    using SN = fm::std_allocator<T, vleaf_np>;
+
+// containers over the allocator with specialised propagation traits (copy/move assignment do not propagate, swap does)
+#define VC_REGISTER_ELEM_NP(NAME, T)                                                                                   \
+    static Reg n_vec_##NAME("vector:" #NAME ":np",                                                                    \
+                            [] { return new BoxSet<std::vector<T, SN<T>>, std::vector<T>, kind_back, 0, vleaf_np, 4>(); }); \
+    static Reg n_lst_##NAME("list:" #NAME ":np", [] {                                                                 \
+        return new BoxSet<std::list<T, SN<T>>, std::list<T>, kind_list, fm::list_node_size<T>::value, vleaf_np, 4>(); \
+    });                                                                                                                \
+    static Reg n_set_##NAME("set:" #NAME ":np", [] {                                                                  \
+        return new BoxSet<std::set<T, std::less<T>, SN<T>>, std::set<T>, kind_set, fm::set_node_size<T>::value, vleaf_np, 4>(); \
+    });                                                                                                                \
+    static Reg n_map_##NAME("map:" #NAME ":np", [] {                                                                  \
+        return new BoxSet<std::map<T, T, std::less<T>, SN<std::pair<const T, T>>>, std::map<T, T>, kind_map,          \
+                          fm::map_node_size<std::pair<const T, T>>::value, vleaf_np, 4>();                            \
+    });                                                                                                                \
+    static Reg n_ust_##NAME("unordered_set:" #NAME ":np", [] {                                                        \
+        return new BoxSet<std::unordered_set<T, EHash, std::equal_to<T>, SN<T>>, std::unordered_set<T, EHash>,        \
+                          kind_uset, fm::unordered_set_node_size<T>::value, vleaf_np, 4>();                           \
+    });                                                                                                                \
+    static Reg n_deq_##NAME("deque:" #NAME ":np",                                                                     \
+                            [] { return new BoxSet<std::deque<T, SN<T>>, std::deque<T>, kind_back, 0, vleaf_np, 4>(); }); \
+    static Reg n_fls_##NAME("forward_list:" #NAME ":np", [] {                                                         \
+        return new BoxSet<std::forward_list<T, SN<T>>, std::forward_list<T>, kind_flist,                              \
+                          fm::forward_list_node_size<T>::value, vleaf_np, 4>();                                       \
+    });
 
 #define VC_REGISTER_ELEM(NAME, T)                                                                                      \
     static Reg r_vec_##NAME("vector:" #NAME,                                                                          \
